@@ -1,6 +1,6 @@
 \* events (v10) as coded, every schedule
 CONSTANTS NSubs = 1 NConn = 1 InitLen = 2 MaxLen = 4 MaxTag = 4 MaxReverts = 1 MaxL1 = 0 MaxPc = 2 MaxTx = 2 MaxGw = 0 MaxRecv = 0 MaxTicks = 0 MaxBack = 3 MaxGot = 6
-  Ver = 10 Kinds <- KEvents StartAtL1 = 0 NoLag = FALSE QuietSub = FALSE ReorgPrio = FALSE TeeStage = FALSE Window = TRUE FixL1None = FALSE BlockIds <- BidsSmall
+  Ver = 10 Kinds <- KEvents StartAtL1 = 0 NoLag = FALSE QuietSub = FALSE ReorgPrio = FALSE TeeStage = FALSE Window = TRUE FixL1None = FALSE FixL1Order = FALSE BlockIds <- BidsSmall
 INIT Init
 NEXT Next
 VIEW view
